@@ -158,6 +158,11 @@ def resource_named(real, n):
     return real.workers[n] if n in real.workers else real.cumuls[n]
 
 
+def cond_obj(real, f):
+    """a condition: a literal True / False is handed over as the Python bool it is (the field type allows it)"""
+    return f if (f is True or f is False) else fml_z3(real, f)
+
+
 def operand_obj(real, o):
     return real.constraint_by_id(o[1]) if o[0] == "ref" else fml_z3(real, o[1])
 
@@ -217,9 +222,9 @@ def make_constraint(real, c, kw):
     if k == "xor":
         return ps.Xor(constraint_1=operand_obj(real, c[1]), constraint_2=operand_obj(real, c[2]), **kw)
     if k == "implies":
-        return ps.Implies(condition=fml_z3(real, c[1]), list_of_constraints=[operand_obj(real, o) for o in c[2]], **kw)
+        return ps.Implies(condition=cond_obj(real, c[1]), list_of_constraints=[operand_obj(real, o) for o in c[2]], **kw)
     if k == "ifThenElse":
-        return ps.IfThenElse(condition=fml_z3(real, c[1]),
+        return ps.IfThenElse(condition=cond_obj(real, c[1]),
                              then_list_of_constraints=[operand_obj(real, o) for o in c[2]],
                              else_list_of_constraints=[operand_obj(real, o) for o in c[3]], **kw)
     if k == "unavailable":
